@@ -79,8 +79,8 @@ func c20Concurrent(r *Rng, tier string, rep *Report) {
 			var wg sync.WaitGroup
 			var mu sync.Mutex
 			type diff struct {
-				i    int
-				got  uint64
+				i   int
+				got uint64
 			}
 			var diffs []diff
 			for g := 0; g < ng; g++ {
